@@ -74,6 +74,7 @@ type chainRun struct {
 	log               [][]any
 	rw                *recWriter
 	panicV            any
+	entered           bool // an instrumented handler has run in this request
 }
 
 type panicToken struct{ id int }
@@ -122,6 +123,13 @@ func callLib(c *rux.Context, name string) {
 func mkHandler(run **chainRun, h int, script [][]any) rux.HandlerFunc {
 	return func(c *rux.Context) {
 		r := *run
+		if !r.entered {
+			// the first handler of a request: whatever earlier requests did (errors, aborts, panics), the context is pristine
+			r.entered = true
+			if len(c.Errors) != 0 || c.FirstError() != nil || c.Length() != -1 {
+				r.log = append(r.log, []any{"residue", h, fmt.Sprintf("errors=%d length=%d", len(c.Errors), c.Length())})
+			}
+		}
 		for _, op := range script {
 			switch opName(op) {
 			case "in":
@@ -156,6 +164,9 @@ func mkHandler(run **chainRun, h int, script [][]any) rux.HandlerFunc {
 			case "err":
 				c.AddError(errors.New("boom"))
 			case "panic":
+				if len(op) > 1 && op[1] == "abort-sentinel" {
+					panic(http.ErrAbortHandler) // the value net/http treats specially; for the router it is a panic like any other
+				}
 				panic(&panicToken{h})
 			default:
 				fatal("unknown op %v", op)
@@ -456,7 +467,7 @@ func chainRunOnce(s *Summary, c *chainCase, sp chainSplit, outerPrefix string, c
 			r.OnPanic = func(cx *rux.Context) {
 				// the recovered value must be available under the documented key
 				v, ok := cx.Get(rux.CTXRecoverResult)
-				if _, isTok := v.(*panicToken); !ok || !isTok {
+				if _, isTok := v.(*panicToken); !ok || !(isTok || v == any(http.ErrAbortHandler)) {
 					cur.log = append(cur.log, []any{"hook-without-recover-value", 0, false})
 				}
 				inner(cx)
@@ -519,7 +530,7 @@ func chainRunOnce(s *Summary, c *chainCase, sp chainSplit, outerPrefix string, c
 		}
 	}
 	got := run.log
-	if tok, ok := run.panicV.(*panicToken); run.panicV != nil && !ok {
+	if tok, ok := run.panicV.(*panicToken); run.panicV != nil && !ok && run.panicV != any(http.ErrAbortHandler) {
 		_ = tok
 		s.mismatch(desc("crash", fmt.Sprintf("chain of %d handlers: ServeHTTP panicked inside rux: %v (after %d log events)", n, run.panicV, len(got))), c)
 		return
